@@ -175,6 +175,10 @@ fn back(case: &Value, issuer_doc: &CoreDocument) -> Vec<(String, Value, Value)> 
     "vc": {"@context": "https://www.w3.org/2018/credentials/v1", "type": ["VerifiableCredential", "UniversityDegreeCredential"],
            "credentialSubject": {"degree": {"type": "BachelorDegree"}}}
   });
+  let iss_obj = r.get("iss_form").and_then(|v| v.as_str()) == Some("obj");
+  if iss_obj {
+    claims["iss"] = json!({"id": "did:example:issuer", "name": "Example University"});
+  }
   let o = claims.as_object_mut().unwrap();
   let pick = |tag: &str, v: Value, w: Value| if tag == "v" { Some(v) } else if tag == "w" { Some(w) } else { None };
   // registered claims
@@ -207,7 +211,17 @@ fn back(case: &Value, issuer_doc: &CoreDocument) -> Vec<(String, Value, Value)> 
   }
   // inner copies
   let vc = claims["vc"].as_object_mut().unwrap();
-  if let Some(x) = pick(s(&r["issuer_inner"]), json!("did:example:issuer"), json!("did:example:mallory")) {
+  let same = if iss_obj { json!({"id": "did:example:issuer", "name": "Example University"}) } else { json!("did:example:issuer") };
+  let other_id = if iss_obj { json!({"id": "did:example:mallory", "name": "Example University"}) } else { json!("did:example:mallory") };
+  let inner_issuer = match s(&r["issuer_inner"]) {
+    "v" => Some(same),
+    "w" => Some(other_id),
+    // the same id, but not the same value
+    "same_id_other_form" => Some(if iss_obj { json!("did:example:issuer") } else { json!({"id": "did:example:issuer", "name": "Example University"}) }),
+    "same_id_other_name" => Some(json!({"id": "did:example:issuer", "name": "A Different University"})),
+    _ => None,
+  };
+  if let Some(x) = inner_issuer {
     vc.insert("issuer".into(), x);
   }
   if let Some(x) = pick(s(&r["id"]["inner"]), json!("https://example.edu/credentials/1"), json!("https://example.edu/credentials/2")) {
